@@ -53,4 +53,38 @@ bool ops_image(Ctx& c, const json& s, int idx, bool& handled) {
 		ArtFile a2; Stream::MemoryReader r2(before.data(), before.size()); if (throws([&] { a2 = ArtFile::Read(r2); }) || art_bytes(a2) != before) { Proto::mismatch(site, "not-byte-stable", where("")); return false; } return true; }
 	if (op == "prt_write") { ArtFile a = art_build(s["value"]); std::vector<unsigned char> out; bool refused = throws([&] { out = art_bytes(a); }); bool want = s["expect"] == "refuse";
 		if (refused != want) { Proto::mismatch(site, refused ? "refused-should-accept" : "accepted-should-refuse", where("")); return false; } if (!refused && out != raw(s["canon"])) { Proto::mismatch(site, "bytes", where("")); return false; } return true; }
+	// ---- C11: a (truncated / corrupted) bitmap, tileset or PRT file: an ordinary error, or an object that is safe to use ----------
+	if (op == "robust_image") { const std::string kind = s["kind"], fault = s["fault"], must = s["must"]; const std::string fsite = site + "/" + kind + "." + fault;
+		Proto::sanitize(Proto::g_site, sizeof Proto::g_site, fsite);
+		if (s.value("slow", false)) { static const bool thorough = getenv("VERIF_TIER") && std::string(getenv("VERIF_TIER")) == "thorough"; if (!thorough) return true; alarm(3000); }
+		auto img = raw(s["image"]); bool err = false; long followUps = 0;
+		auto at = [&](const std::string& what) { Proto::sanitize(Proto::g_site, sizeof Proto::g_site, fsite + "/" + what); };
+		// every follow-up operation is an ordinary success or an ordinary error; anything else is caught by the sanitizers / watchdog
+		auto tryOp = [&](const std::string& what, const std::function<void()>& f) { at(what); ++followUps; try { f(); } catch (const std::exception&) { } };
+		auto useBitmap = [&](BitmapFile& b) {
+			tryOp("Validate", [&] { b.Validate(); });
+			tryOp("WriteIndexed", [&] { Stream::DynamicMemoryWriter w; b.WriteIndexed(w); });
+			tryOp("WriteIndexed(file)", [&] { b.WriteIndexed(ROOT + "/out.bmp"); });
+			tryOp("WriteCustomTileset", [&] { Stream::DynamicMemoryWriter w; Tileset::WriteCustomTileset(w, b); });
+			tryOp("ValidateTileset", [&] { Tileset::ValidateTileset(b); });
+			tryOp("SwapRedAndBlue", [&] { b.SwapRedAndBlue(); });
+			tryOp("AbsoluteHeight", [&] { (void)b.AbsoluteHeight(); (void)b.GetScanLineOrientation(); });
+			tryOp("InvertScanLines", [&] { BitmapFile c2 = b; c2.InvertScanLines(); Stream::DynamicMemoryWriter w; c2.WriteIndexed(w); c2.InvertScanLines(); });
+			tryOp("compare", [&] { BitmapFile c2 = b; if (!(c2 == b)) throw std::logic_error("copy differs"); }); };
+		if (kind == "bmp" || kind == "tileset") { BitmapFile b; Stream::MemoryReader r(img.data(), img.size()); at("load");
+			try { b = kind == "bmp" ? BitmapFile::ReadIndexed(r) : Tileset::ReadTileset(r); } catch (const std::exception&) { err = true; }
+			if (!err) { useBitmap(b);
+				if (kind == "tileset" && fault != "none") { at("load");         // a loaded tileset satisfies the tileset constraints
+					if (b.imageHeader.bitCount != 8 || b.imageHeader.width != 32 || b.imageHeader.height % 32 != 0) { Proto::mismatch(fsite, "constraint-violating-tileset-loaded", where("")); return false; } } } }
+		else { auto art = std::make_shared<ArtFile>(); Stream::MemoryReader r(img.data(), img.size()); at("load");
+			try { *art = ArtFile::Read(r); } catch (const std::exception&) { err = true; }
+			if (!err) { tryOp("Write", [&] { Stream::DynamicMemoryWriter w; art->Write(w); });
+				for (auto& pf : s["pixelFiles"]) { std::size_t len = pf; std::string bmp = ROOT + "/pix" + std::to_string(len) + ".bmp"; { std::vector<unsigned char> px(len); for (std::size_t j = 0; j < len; ++j) px[j] = (unsigned char)(j * 13 + 1); Scen::spit(bmp, px); }
+					tryOp("SpriteLoader", [&] { SpriteLoader loader(bmp, art);
+						for (std::size_t i = 0; i <= art->imageMetas.size() + 1; ++i) tryOp("ExtractImage", [&] { loader.ExtractImage(i, ROOT + "/sprite.bmp"); });
+						tryOp("FrameCount", [&] { if (!art->animations.empty()) { (void)loader.FrameCount(0); if (!art->animations[0].frames.empty()) (void)loader.LayerCount(0, 0); } }); }); } } }
+		at("load");
+		if (must == "refuse" && !err) { Proto::mismatch(fsite, "accepted-should-refuse", where("a proper prefix of a valid file was loaded (" + std::to_string(img.size()) + " bytes)")); return false; }
+		if (must == "accept" && err) { Proto::mismatch(fsite, "refused-should-accept", where("")); return false; }
+		return true; }
 	OPS_EPILOGUE }
